@@ -102,7 +102,8 @@ PROPS = {
                   'C07_handler_unreachable', 'C07_cosmos_lane', 'fact_nonce_flag_used', 'fact_ante_order', 'fact_ante_chain', 'fact_disabled_list'],
         engines=[dict(name='block', test='TestEngineBlock', quick=500, thorough=6000, thorough_seeds=3),
                  dict(name='ante', test='TestEngineAnte', quick=250, thorough=3000, thorough_seeds=2),
-                 dict(name='crypto', test='TestEngineCrypto', quick=600, thorough=6000, thorough_seeds=2, no_model=True, own_oracles_only=True)],
+                 dict(name='crypto', test='TestEngineCrypto', quick=600, thorough=6000, thorough_seeds=2, no_model=True, own_oracles_only=True),
+                 dict(name='statedb', test='TestEngineStatedb', quick=3000, thorough=60000, thorough_seeds=2)],   # an account with a non-zero nonce is never "empty": it is not swept at commit, so its nonce cannot restart at 0 (base, vesting — also expired —, module accounts)
         rule=BLOCK_RULE + '; E-crypto (oracle C06-signed-cosmos-tx-replayable only; its correspondence is judged by C19): for every real sign document, the signature and the EIP-712 rendering of the amino and of the DIRECT-mode protobuf document must not stand for the same body at the next sequence, the next account number, another chain epoch or revision',
         assumptions=BLOCK_ASSUME + ['Cosmos-lane signature verification is the SDK decorator (trusted); only its sequence effect is modelled; that an eth_secp256k1 signature binds sequence, account number and chain id in both sign modes is observed on the real VerifySignature (E-crypto) and is C19 for the rest'],
     ),
